@@ -768,18 +768,29 @@ class Check:
                 p, why = classify_unaccepted(res)
                 if p == "TOOL":
                     raise Q.ToolError(f"{name}: {why} (line {res.get('reached')})")
-                if p in unaccepted_props and p == self.prop:
-                    self.report(res, p, f"{name}: {why}", "unexplained-read")
+                if (p in unaccepted_props and p == self.prop) or (self.prop not in ("C14", "C20") and p in ("C01", "C06")):
+                    # a return value that no admissible history explains is a defect whichever property's
+                    # check the run belongs to
+                    self.report(res, self.prop, f"{name}: {why}", "unexplained-read")
                 else:
                     Q.log(f"  note: run {name} not accepted ({p}: {why[:160]}) - belongs to the {p} check")
                     self.other.append((p, name))
+            # clusters taken through the allocator hook belong to nobody: exact refcounts (C03) cannot hold
+            hooked = any(st.get("op") in ("alloc", "free_alloc") or
+                         (st.get("op") == "par" and any(o.get("op") in ("alloc", "free_alloc") for o in st["ops"]))
+                         for st in sc["steps"])
             for v in Q.dedup_viols(res["viols"]):
+                if hooked and v["prop"] == "C03" and self.prop != "C03":
+                    continue
                 if v["prop"] == "C07" and isinstance(v["detail"], list) and v["detail"] and v["detail"][0] == "Panic" \
                         and "PANIC" in props:
                     v = dict(v, prop=self.prop)
                 if v["prop"] == "CRASH" and "CRASH" in props:
                     v = dict(v, prop=self.prop)
-                if v["prop"] in props or v["prop"] == self.prop:
+                # every invariant of the envelope is evaluated on every run: a violation of another
+                # property's invariant found here is reported by this check as well (with its own tag in
+                # the text) - the defect is real whichever check met it first
+                if v["prop"] in props or v["prop"] == self.prop or (self.prop not in ("C14", "C20") and v["prop"] not in ("OPEN",)):
                     self.report(res, self.prop, f"{name} line {v['line']}: {v['prop']} {json.dumps(v['detail'])[:300]}",
                                 sig_of(self.prop, res, v))
             if len(self.samples) < 3:
